@@ -34,13 +34,14 @@ func c18Universe(slot int) *ref.Universe {
 }
 
 // Case layout: the first c18Sweeps(tier) cases are "sweep" rounds, the rest are "mixed" rounds.
-//   sweep: for every program of a list (a chunk of the corpus plus a stratified sample of catalogue atoms, valid and
-//          invalid) 4-8 goroutines build that SAME program at the same moment, each with its own importer, twice. Any
-//          package-level state the program's code path writes is then written by several goroutines with nothing
-//          ordering them. (A first version let each goroutine run through the list in a different rotation; the
-//          sync.Pools inside fmt and the printer order builds that are far apart in time, so the race detector stayed
-//          silent on a seeded shared scratch slice. Lock step does not depend on that.)
-//   mixed: every goroutine builds a different program (the original workload).
+//
+//	sweep: for every program of a list (a chunk of the corpus plus a stratified sample of catalogue atoms, valid and
+//	       invalid) 4-8 goroutines build that SAME program at the same moment, each with its own importer, twice. Any
+//	       package-level state the program's code path writes is then written by several goroutines with nothing
+//	       ordering them. (A first version let each goroutine run through the list in a different rotation; the
+//	       sync.Pools inside fmt and the printer order builds that are far apart in time, so the race detector stayed
+//	       silent on a seeded shared scratch slice. Lock step does not depend on that.)
+//	mixed: every goroutine builds a different program (the original workload).
 const c18CorpusChunks = 8
 
 func c18Sweeps(tier string) int {
@@ -90,7 +91,7 @@ func c18SweepList(tier string, seed uint64, i int) []c18Item {
 		nAtoms = 250
 	}
 	c18AtomOnce.Do(func() {
-		for _, c := range []string{"operator", "shift", "conv", "assign", "compare", "builtin", "access"} {
+		for _, c := range allCats {
 			c18AllAtoms = append(c18AllAtoms, catalogues()[c]...)
 		}
 	})
